@@ -37,6 +37,7 @@ func load(dirs ...string) (*src, error) {
 			if err != nil {
 				return nil, err
 			}
+			stripHooks(f)
 			s.files[n] = f
 		}
 	}
@@ -418,4 +419,41 @@ func litField(cl *ast.CompositeLit, name string) ast.Expr {
 		}
 	}
 	return nil
+}
+
+// stripHooks removes the verification hook calls (verifTrace / verifYield statements) from the
+// syntax tree, so that the facts are the same with and without them.
+func stripHooks(f *ast.File) {
+	isHook := func(st ast.Stmt) bool {
+		es, ok := st.(*ast.ExprStmt)
+		if !ok {
+			return false
+		}
+		c, ok := es.X.(*ast.CallExpr)
+		if !ok {
+			return false
+		}
+		id, ok := c.Fun.(*ast.Ident)
+		return ok && (id.Name == "verifTrace" || id.Name == "verifYield")
+	}
+	filter := func(list []ast.Stmt) []ast.Stmt {
+		out := list[:0]
+		for _, st := range list {
+			if !isHook(st) {
+				out = append(out, st)
+			}
+		}
+		return out
+	}
+	ast.Inspect(f, func(n ast.Node) bool {
+		switch v := n.(type) {
+		case *ast.BlockStmt:
+			v.List = filter(v.List)
+		case *ast.CaseClause:
+			v.Body = filter(v.Body)
+		case *ast.CommClause:
+			v.Body = filter(v.Body)
+		}
+		return true
+	})
 }
